@@ -47,7 +47,8 @@ def plan_C15(tier, seed):
                 "return case [x mutate]) for or_parse, or_always_parse, or_give_up, optional, matches, and_then, and_also, "
                 "and_do, map, map_err, err_into, From<Result> and ResultExt::{err_into,and_also,and_do}, plus the closure-taking "
                 "combinators once more with a zero-sized value type () and once more with callables that capture 320 bytes by "
-                "value; the whole table is instantiated for several shapes of the "
+                "value; six shapes of the table are evaluated a second time from a destructor while the thread is unwinding "
+                "from a panic (std::thread::panicking() is true there); the whole table is instantiated for several shapes of the "
                 "value/error types - thirteen - (4-byte; odd-sized (u32,(u8,u16)); 136-byte and 328-byte arrays, i.e. Parsed larger than 128 "
                 "bytes; String and Box payloads with drop glue; u128 and #[repr(align(64))] payloads, i.e. over-aligned; five more where the types that map / "
                 "and_then / err_into / map_err convert TO differ in size from the ones they convert FROM: widening 4->16, 16->32, "
@@ -62,7 +63,8 @@ def plan_C15(tier, seed):
         "jobs": jobs,
         "primary_jobs": ["table-chk"],
         "eval_counters": ["cells", "grammar_strings"],
-        "floors": {"cells": 2 * 13 * 131 + 6 * 131, "shapes": 2 * 13 + 6, "distinct_nontrivial": 13 * 131},
+        "floors": {"cells": 2 * (13 + 6) * 131 + 2 * 6 * 131, "shapes": 2 * 13 + 6, "cells_evaluated_while_unwinding": 3 * 6 * 131,
+                   "distinct_nontrivial": 13 * 131},
         "assumptions": ["the specification table in harness/src/c15.rs is written from the rustdoc of flussab::Parsed/ResultExt"],
     }
 
@@ -88,7 +90,8 @@ def plan_C16(tier, seed):
                 "the same with last/first byte mutated, rest+'a', rest+CRLF}, each with a fresh reader under 1-byte reads and "
                 "chunk size 1 (plus once with pre-buffered data and an advanced cursor, and once on a reader that has already "
                 "seen the end of input because an earlier request went past it; and at start offsets usize::MAX, MAX-1, MAX-2, "
-                "MAX-8, 2^63, 2^32+1, where nothing is and the offset must come back unchanged); checked: returned offset == "
+                "MAX-8, 2^63, 2^32+1, where nothing is and the offset must come back unchanged; and with a source that fails "
+                "after the data, its error parked in the reader); checked: returned offset == "
                 "reference, position unchanged, bytes delivered by the source == max(delivered before, last index the "
                 "reference must inspect + 1), read calls <= needed. sampled: random strings up to 19000 bytes, random "
                 "offsets/patterns/chunk sizes/schedules (fixed, one-shot, random with Interrupted, two-part split); checked: "
@@ -104,7 +107,7 @@ def plan_C16(tier, seed):
         "eval_counters": ["evals_strict", "evals_loose"],
         "floors": {"evals_strict": q(tier, 20_000_000, 1_000_000_000), "evals_loose": q(tier, 100_000, 5_000_000),
                    "words": 2 * 6 ** 8, "evals_on_reader_that_has_seen_the_end": 1_000_000,
-                   "evals_at_offsets_near_usize_max": 10_000,
+                   "evals_at_offsets_near_usize_max": 10_000, "evals_with_a_source_that_fails_after_the_data": 100_000,
                    "distinct_nontrivial": 100_000},
         "assumptions": ["reference semantics of the four helpers are taken from their rustdoc in flussab/src/text.rs"],
     }
@@ -137,8 +140,10 @@ def plan_C13(tier, seed):
                 "0..30 leading zeros, '-0', lone '-', random digit-biased bytes; all four scanners; every amount 0..24 of "
                 "buffered bytes (selects fast/cold path; the bytes behind the valid window are stale digits), scans starting "
                 "0..12 bytes into the stream or at usize::MAX-k (k in 0,1,3,7,8,9,15,16; nothing is there: value 0, offset "
-                "unchanged - D15), and four reader states: 1-byte reads / the same with the end of input already "
-                "seen (an earlier request went past it) / everything from one read / one read and end seen. Oracle: "
+                "unchanged - D15), and six reader states: 1-byte reads / the same with the end of input already "
+                "seen (an earlier request went past it) / everything from one read / one read and end seen / a source that "
+                "fails after the data, under 1-byte reads / one read with that failure already seen and its error still "
+                "parked in the reader. Oracle: "
                 "decimal-string reference (no machine arithmetic): Some(v) iff representable and v exact, offset = end of "
                 "the run, lone '-' not consumed, position unchanged, multi == simple. Non-trivial = at least one byte is "
                 "passed over; distinct by hash of (bytes, offset, type, buffered amount, stale prefix); kernel hashes are "
@@ -149,7 +154,7 @@ def plan_C13(tier, seed):
         "eval_counters": ["kernel_evals", "evals"],
         "floors": {"kernel_evals": q(tier, 10_000_000, 1_000_000_000), "evals": q(tier, 1_000_000, 50_000_000),
                    "evals_on_reader_that_has_seen_the_end": 100_000, "evals_at_offsets_near_usize_max": 10_000,
-                   "distinct_nontrivial": 100_000},
+                   "evals_with_a_source_that_fails_after_the_data": 100_000, "distinct_nontrivial": 100_000},
         "assumptions": ["signed scanners are also exercised with unsigned target types (property quantifies over all twelve types)"],
     }
 
@@ -210,7 +215,8 @@ def plan_C11(tier, seed):
                 "values, buf_write_ptr(n)+advance_unchecked(m<=n), flush, flush_defer_err, check_io_error, drop; plus boundary "
                 "pairs: fill the buffer so that exactly s in 0..45 bytes are spare, then write a maximal-length integer of a "
                 "random type / a slice of s-1..s+1 bytes / buf_write_ptr(s-1..s+1)) on a real "
-                "DeferredWriter (the sink also implements write_vectored with writev semantics - one call may take bytes from "
+                "DeferredWriter (one run in five after an earlier writer on the same thread lost its sink to a panic in the "
+                "middle of a flush and was dropped by the unwind with bytes in its buffer; the sink also implements write_vectored with writev semantics - one call may take bytes from "
                 "several slices and stop anywhere -; injected sink errors draw their ErrorKind from 19 non-Interrupted kinds). Each history runs once over a non-failing sink (accept-all / short writes / short+Interrupted) "
                 "and then once per sink write call j that occurred (all j up to 24, sampled beyond) with the sink failing (or "
                 "returning Ok(0)) at call j, sometimes with a second failure later. Judged after every operation from the "
@@ -226,7 +232,8 @@ def plan_C11(tier, seed):
         "primary_jobs": ["hist-chk"],
         "eval_counters": ["runs"],
         "floors": {"runs": q(tier, 20_000, 800_000), "sink_failures_injected": q(tier, 10_000, 400_000),
-                   "ints_via_cold_path": 1000, "boundary_fills": 10_000, "writers_dropped_by_unwinding_from_a_client_panic": 2000, "buf_write_ptr_nonnull": 10_000, "int_type:i128": 1000, "int_type:u8": 1000,
+                   "ints_via_cold_path": 1000, "boundary_fills": 10_000, "writers_dropped_by_unwinding_from_a_client_panic": 2000,
+                   "runs_after_an_earlier_writer_lost_its_sink_to_a_panic": 2000, "buf_write_ptr_nonnull": 10_000, "int_type:i128": 1000, "int_type:u8": 1000,
                    "distinct_nontrivial": q(tier, 10_000, 300_000)},
         "assumptions": ["the writer's capacity is learnt through buf_write_ptr on a fresh writer, not assumed"],
     }
@@ -247,6 +254,10 @@ def plan_C14(tier, seed):
         # tokenizers are reached through the parsers: hostile parser corpus under AddressSanitizer (only a
         # sanitizer report / crash counts here; panics and values are C05's and C06's business)
         Job("scanners-asan", "asan", "c13", q(tier, 24_000, 600_000), {"mode": "boundary"}, crash_is_violation=True),
+        # the text helpers (tabs_or_spaces, newline, next_newline, fixed) at every offset / amount of buffered data: with
+        # chunk size 1 the window ends at the end of the allocation, so any compare / load past the window is a report
+        Job("helpers-asan", "asan", "c16", q(tier, 3_000, 60_000), {"mode": "enum", "max_len": q(tier, 7, 9)}, crash_is_violation=True),
+        Job("helpers-sampled-asan", "asan", "c16", q(tier, 1_000, 20_000), {"mode": "sampled"}, crash_is_violation=True),
         Job("parsers-asan", "asan", "c05", q(tier, 200_000, 8_000_000), {"quiet": 1, "max_size": 600}, cpu_limit=60,
             crash_is_violation=True),
         Job("reader-miri", "miri-san", "c14r", q(tier, 32, 640), {"max_ops": 90, "max_stream": 2000}, nshards=16,
@@ -274,7 +285,9 @@ def plan_C14(tier, seed):
                 "reaches get_unchecked/set_len) and under Miri; any sanitizer report, abort or signal is attributed to the "
                 "journalled history and is a violation. The unsafe code reached only through parsers (8-byte loads in text.rs and "
                 "btor2/token.rs, from_utf8_unchecked, unchecked slicing) is driven by the hostile parser corpus of C05 under "
-                "AddressSanitizer as well. A history is non-trivial if >= 1 panic was caught and >= 2 refills "
+                "AddressSanitizer as well, and so are the digit scanners (C13's boundary workload) and the four text helpers "
+                "(C16's exhaustive and sampled workloads) - with chunk size 1 the window ends at the end of the "
+                "allocation, so a load or compare past the window is a report. A history is non-trivial if >= 1 panic was caught and >= 2 refills "
                 "happened (reader) or the sink saw >= 2 calls over more than one capacity (writer).",
         "jobs": jobs,
         "primary_jobs": ["reader-chk", "writer-chk"],
@@ -549,7 +562,7 @@ def plan_C03(tier, seed):
                "choice:gate_inputs_given_smaller_first": 1000, "choice:comment": 1000,
                "choice:btor_symbol": 1000, "choice:btor_node_comment": 1000, "choice:btor_comment_line": 1000,
                "aiger_section_skipping_roundtrips": 50_000, "btor_documents_also_through_display": 20_000,
-               "choice:clause_with_more_than_4096_literals": 200, "choice:btor_justice_with_more_than_4096_nodes": 30,
+               "choice:clause_with_more_than_4096_literals": 200, "choice:arbitrary_header_parsed_with_ignore_header": 50_000, "choice:btor_justice_with_more_than_4096_nodes": 30,
                "choice:btor_constant_with_more_than_4096_digits": 30, "choice:btor_symbol_longer_than_chunk": 30,
                "choice:btor_comment_longer_than_chunk": 30, "btor_const_candidates_with_non_ascii_characters": 1000,
                "distinct_nontrivial": q(tier, 400_000, 10_000_000)})
@@ -573,7 +586,9 @@ def plan_C03(tier, seed):
         fl["choice:btor:" + k] = 100
     return {
         "level": "exploration",
-        "rule": "direction 1 (2/3 of the cases): typed values are built directly from abstract documents (never by parsing) - "
+        "rule": "direction 1 (2/3 of the cases): typed values are built directly from abstract documents (never by parsing; a third of the "
+                "DIMACS documents with an arbitrary header whose counts do not fit the clauses, parsed back with "
+                "ignore_header(true)) - "
                 "CNF/WCNF/GCNF headers and clauses over all five literal types with extreme literals, weights and groups over "
                 "all of u64, empty clauses, with/without header; AIGER Aig (ascii write_aig) and OrderedAig (ascii and binary "
                 "write_ordered_aig) with every count 0/1/2/few/many independently (B,C,J,F larger than M-I-L and than L), all "
@@ -608,8 +623,8 @@ def plan_C10(tier, seed):
         Job("log-rel", "rel", "c10", 48, {"mib": q(tier, 32, 256), "log": 1}, crash_is_violation=True, wall_limit=7200),
         Job("log-chk", "chk", "c10", 48, {"mib": q(tier, 8, 64), "log": 1}, crash_is_violation=True, wall_limit=7200),
         # record consumers on a bare DeferredReader, each using one family of look-ahead calls only
-        Job("raw-rel", "rel", "c10", 48, {"mib": q(tier, 32, 256), "raw": 1}, crash_is_violation=True, wall_limit=7200),
-        Job("raw-chk", "chk", "c10", 48, {"mib": q(tier, 8, 64), "raw": 1}, crash_is_violation=True, wall_limit=7200),
+        Job("raw-rel", "rel", "c10", 72, {"mib": q(tier, 32, 256), "raw": 1}, crash_is_violation=True, wall_limit=7200),
+        Job("raw-chk", "chk", "c10", 72, {"mib": q(tier, 8, 64), "raw": 1}, crash_is_violation=True, wall_limit=7200),
     ]
     if tier == "thorough":
         jobs.append(Job("stream-1g", "rel", "c10", 24, {"mib": 1024}, crash_is_violation=True, wall_limit=7200))
@@ -634,19 +649,22 @@ def plan_C10(tier, seed):
                 "bound). Solver logs are streamed the same way in a grid of their own (3 line mixes: comment lines in strict "
                 "mode / one run of lines to be ignored and blank lines / comments, ignored lines, blank lines and a value line "
                 "every 70000 lines - x 4 chunk sizes x 4 read sizes): the result, status plus at most 83 literals, is the "
-                "only item. Record consumers working directly on a DeferredReader have a third grid (4 styles, each using one "
+                "only item. Record consumers working directly on a DeferredReader have a third grid (6 styles, each using one "
                 "family of look-ahead calls only: request+advance / request_byte_at_offset+advance / request_more+"
-                "advance_with_buf / length-prefixed records via request_byte+request+advance - x 4 chunk sizes x 3 read sizes: "
+                "advance_with_buf / length-prefixed records via request_byte+request+advance / a steady look-ahead of three "
+                "chunks via request or via request_byte_at_offset, advancing one record at a time - x 4 chunk sizes x 3 read sizes: "
                 "1 byte, a full chunk, exactly one record per read)." % mib,
         "jobs": jobs, "primary_jobs": ["stream-rel"], "eval_counters": ["streams"],
-        "floors": dict({"streams": 2 * 192 + 4 * 48, "log_streams": 2 * 48, "raw_streams": 2 * 48, "streams_100x_bound": 150, "items": q(tier, 500_000_000, 4_000_000_000),
+        "floors": dict({"streams": 2 * 192 + 2 * 48 + 2 * 72, "log_streams": 2 * 48, "raw_streams": 2 * 72, "streams_100x_bound": 150, "items": q(tier, 500_000_000, 4_000_000_000),
                         "distinct_nontrivial": 150},
                        **{"btor_profile:%d" % k: 16 for k in range(3)},
                        **{"log_profile:" + k: 32 for k in ["comment_lines_strict", "run_of_ignored_lines",
                                                             "mixed_with_value_lines"]},
                        **{"raw_style:" + k: 24 for k in ["request+advance", "request_byte_at_offset+advance",
                                                           "request_more+advance_with_buf",
-                                                          "length_prefixed:request_byte+request+advance"]},
+                                                          "length_prefixed:request_byte+request+advance",
+                                                          "steady_lookahead_of_3_chunks:request+advance",
+                                                          "steady_lookahead_of_3_chunks:request_byte_at_offset+advance"]},
                        **{"dimacs_profile:" + k: 40 for k in ["clauses_only", "declared_count_then_comment_tail",
                                                                "comment_prelude_before_header",
                                                                "split_clauses_and_comment_blocks"]},
@@ -673,7 +691,8 @@ def plan_C12(tier, seed):
     ]
     return {
         "level": "exploration",
-        "rule": "well-formed: random AIGs (arbitrary sparse unordered even literal numbering incl. max_var_index at the type's "
+        "rule": "both entry points (renumber_aig and Renumber::new) must agree in verdict, literal map and gate list. "
+                "well-formed: random AIGs (arbitrary sparse unordered even literal numbering incl. max_var_index at the type's "
                 "limit, gate order shuffled against dependency order, constants and negated literals as gate inputs, x&x, "
                 "x&!x, duplicate gates, unused gates, 0..k of every section, symbols/comment, all five literal types) x all 8 "
                 "(trim, structural_hash, const_fold) combinations. Checked per result: inputs then latches then gates "
